@@ -93,9 +93,39 @@ def check(ctx):
     C13.name_overrides(ctx)
     ctx.count("name_override_obligations", len(ctx.obligations) - before)
     T.argpos(ctx, lambda p: p == CORE or (p.startswith("dask/dataframe/dask_expr/") and p.split("/")[-1] not in ATTRIBUTED), "c43", floor=40)
+    from .C13 import aux_key_names
+
+    aux_key_names(ctx)
+    # ---------------- filter push-down across stacked filters must stop at reductions -- before AND after lowering
+    ex_ = ctx.model.module("dask/dataframe/dask_expr/_expr.py")
+    cdp = ex_.func("_check_dependents_are_predicates")
+    red = ctx.model.klass("dask/dataframe/dask_expr/_reductions.py", "ApplyConcatApply")
+    lowered = {call_name(c) for c in calls(red.own_methods["_lower"], None) if call_name(c) and call_name(c)[:1].isupper() and call_name(c) in ("TreeReduce", "ShuffleReduce")}
+    want = {"ApplyConcatApply"} | lowered
+    guards = [n for n in ast.walk(cdp) if isinstance(n, ast.Call) and call_name(n) == "isinstance" and unparse(n.args[0]) == "e" and isinstance(n.args[1], ast.Tuple) and "ApplyConcatApply" in unparse(n.args[1])]
+    ok = len(guards) == 1
+    got = set()
+    if ok:
+        got = {unparse(e) for e in guards[0].args[1].elts}
+        st_ = enclosing_stmt(guards[0])
+        ok = want <= got and isinstance(st_, ast.If) and any(isinstance(b, ast.Return) and const(b.value) is False for b in st_.body) and any(unparse(e_) == "allow_reduction" and pol is False for e_, pol in cfg_of(cdp).facts(st_))
+    ctx.count("lowered_reduction_classes", len(lowered))
+    ctx.floor("lowered_reduction_classes", 2, "classes ApplyConcatApply._lower constructs")
+    ctx.ob("TAB.reduction-guard", cdp, f"filters are not merged across a reduction: the guard names ApplyConcatApply and what it lowers to {sorted(lowered)}", ok, "" if ok else f"guard covers {sorted(got)}, missing {sorted(want - got)}: after lowering, a reduction over a filtered frame is no longer recognised and the filter is squashed with an outer one (the reduction then sees unfiltered rows)")
+    # ---------------- a scalar selection x['b'] and a list selection x[['b']] are different results
+    pcp = ex_.func("plain_column_projection")
+    # the comparison that guards `return result` (the rebuilt expression without the outer projection)
+    cmps = [st_.test for st_ in walk_no_nested(pcp) if isinstance(st_, ast.If) and isinstance(st_.test, ast.Compare) and "column_union" in unparse(st_.test.left) and any(isinstance(b, ast.Return) and unparse(b.value) == "result" for b in st_.body)]
+    ok = len(cmps) == 1 and unparse(cmps[0].left) == "column_union" and unparse(cmps[0].comparators[0]) == "parent.operand('columns')" and isinstance(cmps[0].ops[0], ast.Eq)
+    ctx.ob("TYPE.projection-dimension", pcp, "the outer Projection is dropped only if column_union equals its RAW columns operand (scalar vs list decides Series vs DataFrame)", ok, "" if ok else f"compares with `{unparse(cmps[0].comparators[0]) if cmps else None}`: the normalised column list cannot tell x['b'] from x[['b']], so the projection that restores the dimension is dropped")
+    ok = any(unparse(r.value) == "type(parent)(result, parent.operand('columns'))" for r in returns(pcp))
+    ctx.ob("TYPE.projection-dimension.rewrap", pcp, "otherwise the parent projection is re-applied with its raw operand", ok)
 
 
 VARIANTS = [
+    ("dask/dataframe/dask_expr/_expr.py", "            if isinstance(e, (ApplyConcatApply, TreeReduce, ShuffleReduce)):", "            if isinstance(e, (ApplyConcatApply, ShuffleReduce)):", "TAB.reduction-guard"),
+    ("dask/dataframe/dask_expr/_expr.py", '    if column_union == parent.operand("columns"):', '    if _convert_to_list(column_union) == parent.columns:', "TYPE.projection-dimension"),
+    ("dask/dataframe/dask_expr/_expr.py", '        name_prepend = f"overlap-prepend-{self._name}"', '        name_prepend = f"overlap-prepend-{self.frame._name}"', "N1.aux-key"),
     (CORE, "                new_operands.append(new)\n\n            if changed:\n                expr = type(expr)(*new_operands)\n                continue\n            else:\n                break", "                if changed:\n                    new_operands.append(new)\n\n            if changed:\n                expr = type(expr)(*new_operands)\n                continue\n            else:\n                break", "SIB.rebuild.one-for-one"),
     (CORE, "            for operand in expr.operands:\n                if isinstance(operand, Expr):\n                    new = operand.rewrite(kind=kind, rewritten=rewritten)", "            for operand in reversed(expr.operands):\n                if isinstance(operand, Expr):\n                    new = operand.rewrite(kind=kind, rewritten=rewritten)", "SIB.rebuild.one-for-one"),
     (CORE, "    expr = expr.lower_completely()\n    if stage == \"physical\":", "    expr = expr.fuse()\n    if stage == \"physical\":", "MPT.fixpoint.stage-order"),
